@@ -318,7 +318,7 @@ def _work(shard):
 
 def run(ctx):
     progs = programs(ctx.tier)
-    maxlen = 3 if ctx.quick else 5
+    maxlen = 3 if ctx.quick else 4
     _STATE.update(progs=progs, maxlen=maxlen)
     tot = {}
     for part in ctx.pmap(_work, range(NSHARDS)):
